@@ -225,6 +225,7 @@ def parseEngOp (st : DState) (toks : List String) : Option Eng.Op :=
   | ["mark", t, "dirty"] => do some (.mark (← parseTopic t) false)
   | ["isclean", t] => do some (.isClean (← parseTopic t))
   | ["persist"] => some .persist
+  | ["persister", _] => some .persist
   | ["reclaim"] => some .reclaim
   | _ => none
 
